@@ -12,7 +12,8 @@ RULE = ('every kind of generated deck (flat partitions with complements and empt
         'reader parses the written bytes and evaluates WellFormed clause by clause (ids unique, references defined, '
         'declared counts, no surface on both sides, one composition per non-virtual volume, COMPOSITION count, '
         'finite numbers). Non-trivial = file has at least one UNION/INTE operator; distinct = distinct (deck, options).')
-NOT_PROVED = ['write/parse round trip of the writers (the predicate is evaluated on the bytes by the Lean reader)',
+NOT_PROVED = ['write/parse round trip of the writers as a theorem (it is checked per file by the fidelity stream: the Lean '
+              'reader must find in the bytes exactly the dictionaries writeT4Geometry was handed)',
               'ids unique / declared counts / one composition per volume / finite numbers: properties of the writers, '
               'evaluated on the bytes of every file, not theorems']
 ASSUMPTIONS = []
@@ -20,15 +21,88 @@ ASSUMPTIONS = []
 
 def plan(tier):
     q = tier == 'quick'
-    return [('wf', 320 if q else 6000, {}), ('coincident', 120 if q else 2000, {})]
+    return [('wf', 320 if q else 6000, {}), ('coincident', 120 if q else 2000, {}), ('fidelity', 150 if q else 3000, {})]
 
 
 def search_plan(tier, disagreements):
     return [('wf', 1500 if tier == 'quick' else 8000, {})]
 
 
+def fidelity_case(seed, rng, ctx):
+    """writer fidelity: what the Lean reader finds in the written file is exactly what writeT4Geometry was handed —
+    every surface in use with the same keyword, the same IEEE numbers and the same TRANSFORM, every volume with the same
+    PLUS/MINUS sets, operator, operands and FICTIVE flag (read ∘ write = identity on the in-memory dictionaries)"""
+    import struct
+    m = rng.random()
+    if m < 0.4:
+        d = G.build_flat_deck(rng, macro_p=0.3, tr_p=0.3, imp0_p=0.2)
+    elif m < 0.75:
+        d = U.build_universe_deck(rng, depth=rng.randint(1, 2), macro_p=0.2, tr_p=0.2, fill_tr_p=0.6, trcl_p=0.3)
+    else:
+        d = C13_tori(rng)
+    args = list(rng.choice(all_option_sets()))
+    text = D.render_deck(d, D.Layout(rng))
+    key = h((text, tuple(args)))
+    res, cap = C.convert_capture(text, args)
+    if not res.ok or cap.written is None:
+        return None
+    resp = ctx['drv'].ask('t4dump ' + lean.hx(res.t4))
+    fails = []
+    rp = {'deck': text, 'args': args}
+    if not resp.startswith('ok'):
+        return dict(hashes=[key], nontrivial_hashes=[], dist={}, sample=None,
+                    failures=[fail('disagreement', 'driver: ' + resp[:200], {'stream': 'fidelity'}, rp)])
+    fsurfs, fvols = {}, {}
+    for it in resp.split()[1:]:
+        f = it.split(':')
+        if f[0] == 'S':
+            nums = lambda t: [struct.unpack('<d', struct.pack('<Q', int(x)))[0] for x in t.split(',')] if t and t != '-' else None  # noqa
+            fsurfs[int(f[1])] = (f[2], nums(f[3]) or [], nums(f[4]))
+        else:
+            ints = lambda t: tuple(sorted(int(x) for x in t.split(','))) if t else ()  # noqa
+            op = None if f[4] == '-' else (f[4].split(',')[0], tuple(int(x) for x in f[4].split(',')[1:]))
+            fvols[int(f[1])] = (ints(f[2]), ints(f[3]), op, f[5] == '1')
+    w = cap.written
+    used = set(sid for k, v in w['vols'].items() for sid in v[0] + v[1])
+    for sid in sorted(used):
+        mem = w['surfs'].get(sid)
+        got = fsurfs.get(sid)
+        if mem is None or got is None or mem[0] != got[0] or list(mem[1]) != list(got[1]) or (mem[2] or None) != (got[2] or None):
+            fails.append(fail('violation', 'surface %d: in memory %r, in the file %r' % (sid, mem, got),
+                              {'stream': 'fidelity', 'class': 'surface-differs'}, rp))
+            break
+    extra = sorted(set(fsurfs) - used)
+    if extra:
+        fails.append(fail('violation', 'surfaces %r are written but used by no volume' % (extra[:5],),
+                          {'stream': 'fidelity', 'class': 'surplus-surface'}, rp))
+    for vid, v in w['vols'].items():
+        if vid in w['skipped']:
+            continue
+        mem = (tuple(v[0]), tuple(v[1]), v[2], v[4])
+        got = fvols.get(vid)
+        if got != mem:
+            fails.append(fail('violation', 'volume %d: in memory %r, in the file %r' % (vid, mem, got),
+                              {'stream': 'fidelity', 'class': 'volume-differs'}, rp))
+            break
+    surplus = sorted(set(fvols) - set(k for k in w['vols'] if k not in w['skipped']))
+    if surplus:
+        fails.append(fail('violation', 'volumes %r are written but not in the dictionary' % (surplus[:5],),
+                          {'stream': 'fidelity', 'class': 'surplus-volume'}, rp))
+    return dict(hashes=[key], nontrivial_hashes=[key] if len(fvols) > 1 else [],
+                dist={'fidelity:surfaces': len(used), 'fidelity:volumes': len(fvols),
+                      'fidelity:with-transform': sum(1 for s_ in used if w['surfs'].get(s_, (0, 0, None))[2])},
+                sample={'deck': text[:200]}, failures=fails[:3])
+
+
+def C13_tori(rng):
+    from . import c13
+    return c13.tori_deck(rng)
+
+
 def run_case(stream, seed, ctx, params):
     rng = random.Random(seed)
+    if stream == 'fidelity':
+        return fidelity_case(seed, rng, ctx)
     if stream == 'wf':
         m = rng.random()
         if m < 0.35:
